@@ -69,8 +69,16 @@ def run_sequence(ctx, rng):
                 wsn += 1
                 ws = os.path.join(root, "ws%d" % wsn)
                 gen.materialize(ws, files, rng)
+                warmed = 0
+                if shared_state is not None and len(files) >= 3 and rng.random() < 0.6:
+                    # a partially warm hash-state cache: some files of the directory (not a prefix of the walk order) were
+                    # staged on their own before, so the batched lookup answers them first and hashes the rest afterwards
+                    for key in sorted(files)[1::2]:
+                        fp = os.path.join(ws, *key)
+                        k2, _ = safe_call(lambda: _stage(build, transfer, odb, fp, fs, sp["algo"]))
+                        warmed += k2 == "ok"
                 kind, res = safe_call(lambda: _stage(build, transfer, odb, ws, fs, sp["algo"]))
-                trace.append(["stage_dir", i, len(files), kind if kind == "ok" else res])
+                trace.append(["stage_dir_warm" if warmed else "stage_dir", i, len(files), kind if kind == "ok" else res])
                 if kind == "ok":
                     sp["files"] += list(files.values())
                     sp["trees"].append(files)
@@ -164,7 +172,7 @@ def _stage(build, transfer, odb, path, fs, algo):
 
 def run(ctx):
     ctx.rule = (
-        "sequences of 3-9 operations {stage+transfer a directory (odd names, duplicates, empty files, CRLF text), stage+transfer a "
+        "sequences of 3-9 operations {stage+transfer a directory (odd names, duplicates, empty files, CRLF text; with a shared state database often after staging every other file of it on its own: partially warm cache), stage+transfer a "
         "file, store-to-store transfer (copy or hardlink), index build/md5/save, migrate to another store (incl. md5-dos2unix -> md5)} "
         "over 2-3 stores of either class and algorithm, optionally sharing one hash-state database; every store is audited with "
         "hashlib after every step. non-trivial = at least 3 operations"
